@@ -915,6 +915,11 @@ func c14raceWitness(c *Ctx, p *c14pair, link bool) {
 		r.Violation(c14SigRace, fmt.Sprintf("node-down processed between the remote answer and the local Add (link=%v): the request returned nil, no exit/down was delivered, the relation stays recorded without a connection", link), map[string]interface{}{"link": link})
 	} else if relErr == nil && n != 1 {
 		r.Violation("C14/notification-lost", fmt.Sprintf("race witness: request returned nil, %d notifications, relation recorded: %v", n, held), nil)
+	} else if relErr != nil && (held || n != 0) {
+		r.Violation("C14/refused-but-recorded", fmt.Sprintf("race witness: request returned %v, yet %d notification(s) arrived and relation recorded: %v", relErr, n, held), nil)
+	}
+	if relErr != nil {
+		r.Count("witness.link-vs-node-down-race.refused")
 	}
 	p.a.Kill(h)
 }
